@@ -251,13 +251,107 @@ def gaussian_symmetry_instance(lead, N, D):
                     patches=stubs.make_gaussian_opaque_patches)
 
 
+def integration_weight_instance(kind, K, N, wca):
+    """The integration trainers (GCACGMM, vMF-cACGMM) carry their own weight update, stored with the tied axes removed."""
+    from pb_bss.distribution import gcacgmm, vmfcacgmm
+    F, D, Ed = 2, 2, 2
+
+    def patches():
+        return stubs.make_gaussian_opaque_patches() if kind == 'gcacgmm' else []
+
+    def make(B):
+        return {'y': B.cplx('y', (F, N, D)), 'e': B.real('e', (F, N, Ed)),
+                'g': B.real('g', (F, K, N), lo=0.0, lo_strict=True, dist=(0.05, 1.0)),
+                's': B.real('s', (F, N), lo=0.0, lo_strict=True, dist=(0.2, 2.0)),
+                'q': B.real('q', (F, K, N), lo=0.0, lo_strict=True, dist=(0.5, 2.0))}
+
+    def call(a):
+        if kind == 'gcacgmm':
+            m = gcacgmm.GCACGMMTrainer()._m_step(a['y'], a['e'], a['q'], affiliation=a['g'], saliency=a['s'], hermitize=True,
+                                                 covariance_norm='eigenvalue', eigenvalue_floor=1e-10, covariance_type='spherical',
+                                                 fixed_covariance=None, weight_constant_axis=wca, spatial_weight=1., spectral_weight=1.)
+        else:
+            m = vmfcacgmm.VMFCACGMMTrainer()._m_step(a['y'], a['e'], a['q'], affiliation=a['g'], saliency=a['s'], min_concentration=1e-10,
+                                                     max_concentration=500, hermitize=True, covariance_norm='eigenvalue',
+                                                     eigenvalue_floor=1e-10, weight_constant_axis=wca, spatial_weight=1., spectral_weight=1.)
+        return {'weight': m.weight, 'wca': tuple(m.weight_constant_axis)}
+
+    def ensures(sp, inp, out):
+        want = {(-1,): (F, K), (-3,): (K, N), (-3, -1): (K,), (-3, -2, -1): ()}[tuple(wca)]
+        kax = {(-1,): 1, (-3,): 0, (-3, -1): 0}.get(tuple(wca))
+        yield 'tying-recorded-in-the-model', sp._f(out['wca'] == tuple(wca))
+        w = out['weight']
+        if want == ():
+            yield 'uniform-weight-one-over-K', sp._f(np.ndim(w) == 0 and abs(float(w) * K - 1.0) < 1e-15)
+            return
+        yield 'documented-shape-tied-axes-removed', sp._f(shape_of(w) == want)
+        if shape_of(w) != want:
+            return
+        wc = cells(w)
+        for i in np.ndindex(*want):
+            yield 'non-negative[%s]' % (i,), sp.ge(wc[i], 0.0)
+        rest = [range(n) for a, n in enumerate(want) if a != kax]
+        for r in itertools.product(*rest):
+            idx = lambda k: r[:kax] + (k,) + r[kax:]      # noqa
+            yield 'sums-to-one-over-classes[%s]' % (r,), sp.eq(sp.sum(wc[idx(k)] for k in range(K)), 1.0)
+
+    func = {'gcacgmm': 'gcacgmm:GCACGMMTrainer', 'vmfcacgmm': 'vmfcacgmm:VMFCACGMMTrainer'}[kind]
+    return Instance('C09', DN + func + '._m_step', 'weights-K%dN%d-wca%s' % (K, N, str(tuple(wca)).replace(' ', '')), make, call, ensures,
+                    patches=patches, definedness=False, crosscheck=False, timeout=30.0, native_n=3)
+
+
+def fit_floor_instance(kind, cov_norm, floor, aeps):
+    """One public fit of a cACG-family trainer: the eigenvalue floor asked for is the one in force, whatever the clipping constant."""
+    from pb_bss.distribution import cacgmm, gcacgmm, vmfcacgmm
+    F, K, N, D, Ed = 1, 2, 3, 2, 2
+
+    def patches():
+        return stubs.make_gaussian_opaque_patches() if kind == 'gcacgmm' else []
+
+    def make(B):
+        return {'y': B.cplx('y', (F, N, D), dist=(0.3, 2.0)), 'e': B.real('e', (F, N, Ed)),
+                'g': B.real('g', (F, K, N), lo=0.0, lo_strict=True, dist=(0.05, 1.0))}
+
+    def call(a):
+        kw = dict(initialization=a['g'], iterations=1, eigenvalue_floor=floor, covariance_norm=cov_norm, affiliation_eps=aeps)
+        if kind == 'cacgmm':
+            m = cacgmm.CACGMMTrainer().fit(a['y'], **kw)
+        elif kind == 'gcacgmm':
+            m = gcacgmm.GCACGMMTrainer().fit(a['y'], a['e'], **kw)
+        else:
+            m = vmfcacgmm.VMFCACGMMTrainer().fit(a['y'], a['e'], **kw)
+        return {'lam': m.cacg.covariance_eigenvalues}
+
+    def ensures(sp, inp, out):
+        ok = shape_of(out['lam']) == (F, K, D)
+        yield 'shape', sp._f(ok)
+        if not ok:
+            return
+        lam = cells(out['lam'])
+        for i in np.ndindex(F, K):
+            top = lam[i + (0,)]
+            for e in range(1, D):
+                top = sp.max(top, lam[i + (e,)])
+            for e in range(D):
+                if cov_norm == 'eigenvalue':
+                    # (the upper end of the range is from_covariance's own obligation above)
+                    yield 'eigenvalue-at-least-floor[%s,%d]' % (i, e), sp.ge(lam[i + (e,)], floor)
+                else:
+                    yield 'eigenvalue-at-least-floor-times-largest[%s,%d]' % (i, e), sp.implies(sp.ge(top, 0.0), sp.ge(lam[i + (e,)], top * floor))
+
+    func = {'cacgmm': 'cacgmm:CACGMMTrainer', 'gcacgmm': 'gcacgmm:GCACGMMTrainer', 'vmfcacgmm': 'vmfcacgmm:VMFCACGMMTrainer'}[kind]
+    return Instance('C09', DN + func + '.fit', 'floor-in-force-%s-floor%g-eps%g' % (cov_norm, floor, aeps), make, call, ensures,
+                    patches=patches, definedness=False, crosscheck=False, timeout=30.0, native_n=3)
+
+
 def degenerate_bounded_instance():
     """Fits on degenerate data: finite parameters inside their domain (bounded stand-in)."""
     from pb_bss.distribution import (CACGMMTrainer, CWMMTrainer, GMMTrainer, VMFMMTrainer, ComplexAngularCentralGaussianTrainer,
                                      VonMisesFisherTrainer, ComplexWatsonTrainer, GaussianTrainer)
 
     def make(B):
-        return {'model': B.choose('model', ['cacgmm', 'cwmm', 'gmm-full', 'gmm-diagonal', 'gmm-spherical', 'vmfmm', 'cacg', 'vmf', 'watson']),
+        return {'model': B.choose('model', ['cacgmm', 'cwmm', 'gmm-full', 'gmm-diagonal', 'gmm-spherical', 'vmfmm', 'cacg', 'vmf', 'watson',
+                                            'cacgmm-opts', 'gcacgmm', 'vmfcacgmm', 'cacgmm-opts', 'gcacgmm', 'vmfcacgmm']),
                 'data': B.choose('data', ['generic', 'zero-frames', 'duplicated', 'collinear', 'few-frames', 'one-hot', 'offset']),
                 'K': B.choose('K', [2, 3]), 'D': B.choose('D', [2, 3, 4]), 'it': B.choose('it', [1, 2, 5]),
                 'wca': B.choose('wca', [(-1,), -2, (-3,), (-3, -1)]), 'seed': B.choose('seed', list(range(500))),
@@ -269,7 +363,7 @@ def degenerate_bounded_instance():
         F = 2
         N = D - 1 if data == 'few-frames' else 12
         N = max(N, 2)
-        cplx = model in ('cacgmm', 'cwmm', 'cacg', 'watson')
+        cplx = model in ('cacgmm', 'cwmm', 'cacg', 'watson', 'cacgmm-opts', 'gcacgmm', 'vmfcacgmm')
         y = rng.normal(size=(F, N, D)) + (1j * rng.normal(size=(F, N, D)) if cplx else 0)
         if data == 'zero-frames':
             y[:, ::3] = 0
@@ -290,6 +384,31 @@ def degenerate_bounded_instance():
         if model == 'cacgmm':
             m = CACGMMTrainer().fit(y, initialization=init, iterations=inp['it'], weight_constant_axis=wca)
             res.update(weight=m.weight, lam=m.cacg.covariance_eigenvalues, V=m.cacg.covariance_eigenvectors, K=K)
+        elif model in ('cacgmm-opts', 'gcacgmm', 'vmfcacgmm'):
+            # the trainers of the cACG family with every option off its default: the eigenvalue floor asked for is the one in force
+            # (absolute under the 'eigenvalue' norm, relative to the largest eigenvalue otherwise), whatever the clipping constant
+            floor = [1e-6, 1e-3, 1e-8][inp['seed'] % 3]
+            norm = ['eigenvalue', 'trace', False][(inp['seed'] // 3) % 3]
+            aeps = [1e-10, 1e-12, 1e-5][(inp['seed'] // 9) % 3]
+            if data == 'zero-frames' and norm != 'eigenvalue':
+                y[:, 1::3] = y[:, 2::3][:, :y[:, 1::3].shape[1]]
+            if model == 'cacgmm-opts':
+                m = CACGMMTrainer().fit(y, initialization=init, iterations=inp['it'], weight_constant_axis=wca, eigenvalue_floor=floor,
+                                        covariance_norm=norm, affiliation_eps=aeps)
+                w = m.weight
+            else:
+                from pb_bss.distribution import GCACGMMTrainer, VMFCACGMMTrainer
+                from pb_bss.utils import unsqueeze
+                emb = rng.normal(size=(F, N, 4))
+                wca_ = {(-1,): (-1,), -2: (-3, -2, -1), (-3,): (-3,), (-3, -1): (-3, -1)}[wca]
+                cls = GCACGMMTrainer if model == 'gcacgmm' else VMFCACGMMTrainer
+                m = cls().fit(y, emb, initialization=init, iterations=inp['it'], weight_constant_axis=wca_, eigenvalue_floor=floor,
+                              covariance_norm=norm, affiliation_eps=aeps)
+                # the stored weight has the tied axes removed and says which: (F, K), (K, T), (K,) or the scalar 1 / K
+                w = np.asarray(m.weight, dtype=float)
+                res['weight_shape'] = (w.shape, {(-1,): (F, K), (-3, -2, -1): (), (-3,): (K, N), (-3, -1): (K,)}[wca_])
+                w = np.full((1, K, 1), float(w)) if w.ndim == 0 else unsqueeze(w, m.weight_constant_axis)
+            res.update(weight=w, lam=m.cacg.covariance_eigenvalues, V=m.cacg.covariance_eigenvectors, K=K, floor=floor, norm=norm)
         elif model == 'cwmm':
             m = CWMMTrainer().fit(y, initialization=init, iterations=inp['it'], weight_constant_axis=wca)
             res.update(weight=m.weight, mode=m.complex_watson.mode, kappa=m.complex_watson.concentration, K=K)
@@ -334,7 +453,22 @@ def degenerate_bounded_instance():
             yield 'weights-non-negative', bool(np.all(w >= 0))
             kax = -2
             yield 'weights-sum-to-one', bool(np.allclose(w.sum(kax), 1.0, atol=out['K'] * 1e-9 + 1e-9))
-        if 'lam' in out:
+        if 'weight_shape' in out:
+            yield 'weights-have-the-documented-shape', out['weight_shape'][0] == out['weight_shape'][1]
+        if 'lam' in out and 'norm' in out:
+            lam, floor, norm = np.asarray(out['lam']), out['floor'], out['norm']
+            top = lam.max(-1, keepdims=True)
+            if norm == 'eigenvalue':
+                yield 'cacg-eigenvalues-in-[floor,1]', bool(np.all(lam >= floor * (1 - 1e-12)) and np.all(lam <= 1 + 1e-12))
+                yield 'cacg-largest-eigenvalue-one', bool(np.allclose(top, 1.0))
+            else:
+                yield 'cacg-eigenvalues-at-least-floor-times-largest', bool(np.all(lam >= floor * top * (1 - 1e-12)) and np.all(top > 0))
+                if norm == 'trace':
+                    D_ = lam.shape[-1]
+                    yield 'cacg-unit-trace-up-to-flooring', bool(np.all(lam.sum(-1) >= 1 - 1e-9) and np.all(lam.sum(-1) <= 1 + D_ * floor + 1e-9))
+            V = np.asarray(out['V'])
+            yield 'cacg-eigenvectors-unitary', bool(np.allclose(np.conj(np.swapaxes(V, -1, -2)) @ V, np.eye(V.shape[-1]), atol=1e-8))
+        elif 'lam' in out:
             lam = np.asarray(out['lam'])
             yield 'cacg-eigenvalues-in-[floor,1]', bool(np.all(lam >= 1e-10 * (1 - 1e-12)) and np.all(lam <= 1 + 1e-12))
             yield 'cacg-largest-eigenvalue-one', bool(np.allclose(lam.max(-1), 1.0))
@@ -391,6 +525,14 @@ def instances(tier):
     out.append(watson_domain_instance((2,), 2, 2))
     out.append(gaussian_symmetry_instance((), 3, 2))
     out.append(gaussian_symmetry_instance((2,), 3, 2))
+    for kind in ('gcacgmm', 'vmfcacgmm'):
+        for wca in ((-1,), (-3,), (-3, -1), (-3, -2, -1)):
+            out.append(integration_weight_instance(kind, 2, 3, wca))
+        out.append(integration_weight_instance(kind, 3, 2, (-3,)))
+    for kind in ('cacgmm', 'gcacgmm', 'vmfcacgmm'):
+        out.append(fit_floor_instance(kind, 'eigenvalue', 1e-3, 1e-10))
+        out.append(fit_floor_instance(kind, 'trace', 1e-6, 1e-3))
+    out.append(fit_floor_instance('cacgmm', False, 1e-3, 1e-8))
     out.append(degenerate_bounded_instance())
     return out
 
